@@ -67,6 +67,10 @@ PROPS = {
     'C20': dict(units=['world', 'join', 'marker'], witness='alloc',
                 assumptions=[HEADROOM, "REDUCED: determinism is shown for what is under contract: every C20-tagged postcondition pins the result and the new abstract state as spec FUNCTIONS of the old abstract state and the arguments (index = last of free list else counter; batch-kill stop position unique; merge returns killed indices ascending; join keys = ascending enumeration of the mask; marker ids from a counter), and lemma_deterministic composes this over whole allocator histories",
                              "OUTSIDE: event streams beyond the per-operation append (C12), serialised output and the serde paths (C14 is not applicable), SimpleMarkerAllocator::maintain (iterator adaptors), HashMapStorage::clean's drop order, cross-process replay; hash-map iteration is never used by code under contract (vstd gives HashMap no iteration order, so a contract that pinned a result computed from it could not verify)"]),
+    'C19': dict(units=['changeset'], witness=None,   # unit changeset contains the storage layer, the real DenseVecStorage and ChangeSet
+                assumptions=["REDUCED to the ordering mechanism, because neither verifier has unwinding: Verus has no panics, Kani treats a panic as a failed check. What is proved (unbounded, on the real code) is the exception-safety invariant AT every call that can run a component destructor: the bookkeeping already treats the value as gone there. The step from that invariant to the property's statement (after catch_unwind no value is destroyed twice and no lookup reaches a destroyed value) is a meta-argument, not a checked obligation: unwinding only runs Drop impls, and the storages' own Drop runs clear(), whose destructor site is covered",
+                             "the unwinding guard of not_present_insert: its real Drop body is additionally emitted as an inherent method (N14) and verified against {guard_pre} body {MaskedStorage::wf}; that guard_pre holds where BitSet::add could unwind relies on the source's own stated assumption that a panicking BitSet::add leaves the bit set unchanged",
+                             "OUTSIDE: which destructor call (first, k-th, last) panics inside a kind's clean(); VecStorage / DefaultVecStorage / map kinds' own clean bodies; entity deletion / maintain / world teardown as wholes (there the allocator is updated before delete_components runs, which is part of C05's contracts, not restated here); catch_unwind itself; that a removed guard is noticed (a change that deletes the guard makes the hint anchor disappear: exit 2, undecided)"] + STORAGE_ASSUME),
     'C05': dict(units=['world', 'data', 'storage'], witness='alloc',
                 assumptions=[HEADROOM, "WorldExt::delete_components is under contract (loop invariant: the storages walked so far lost exactly the given indices, the rest is untouched) over an ASSUMED model of shred's MetaTable<dyn AnyStorage>: `iter_mut(world)` yields every listed storage exactly once (normalised to an index loop over that list, N10) and the dynamic call `storage.drop(ids)` is MaskedStorage<T>::drop for the listed T, whose real body is verified in unit storage (AnyStorage::drop: removes exactly those indices)",
                              "World accessors (entities_mut, write_resource) are stubs with the documented shred behaviour; LazyUpdate::maintain is unconstrained"]),
@@ -80,6 +84,10 @@ MANIFEST_TEXT = {
         level="Bounded stand-in, never counted as proved: Kani/CBMC harnesses drive the real unsafe storage kinds (VecStorage, DenseVecStorage, NullStorage; thorough: MaskedStorage + Drain with the real bit set) with a destructor ledger from a symbolic insertion prefix through one arbitrary operation to clean()/drop, asserting each value is destroyed xor handed back exactly once, with CBMC's memory-safety checks on. Verus cannot state this property (no destructor semantics).",
         design_ref='DESIGN.md §5 C08', note='bounded (<= 3 slots, one operation); Kani+CBMC trusted; DefaultVec/BTree/HashMap kinds, lazy queue, teardown order outside.',
         technique='bounded Kani harnesses with a destructor ledger on the real unsafe code (stand-in for a contract)'),
+    'C19': dict(
+        level="Reduced to the mechanism the property names: Verus proves, for all states, that at each call which may run a component destructor the structure is already consistent with the value being gone — MaskedStorage::clear and ChangeSet::clear have swapped in the empty mask before clean() runs; MaskedStorage::drop / remove have cleared the mask bit before the raw drop / remove; DenseVecStorage::clean has emptied both redirection tables before the data vector drops the values; the unwinding guard of not_present_insert is armed in a state from which its (real) body restores the mask/content invariant. Unwinding itself is not modelled by either verifier, so the property's statement about the state after a caught panic follows only by the argument in DESIGN.md §5 C19, which is stated as an assumption.",
+        design_ref='DESIGN.md §5 C19', note=TB + ' No unwinding semantics: the inference from destructor-site invariants to post-catch_unwind behaviour is a meta-argument; BitSet::add assumed unchanged on panic (as the source states).',
+        technique='Verus: labelled assertions at every destructor call site of the extracted real code + a contract on the real body of the unwinding guard'),
     'C20': dict(
         level="Reduced: for the allocator, world-level deletion, join iteration and marker-id allocation, the postconditions verified by Verus are functional (result and successor abstract state are spec functions of the predecessor state and arguments), so two equal single-threaded histories give equal handles, results and visit orders; lemma_deterministic proves this by induction over histories and lemma_kill_stop_unique/lemma_visit_order cover the two places where a relation rather than a function is stated. Serialised output, event streams and cross-process replay are outside.",
         design_ref='DESIGN.md §5 C20', note=TB,
@@ -140,5 +148,4 @@ NOT_APPLICABLE = {
     'C10': "interleavings of relaxed atomics; the N3 sequentialisation used for every other property removes concurrency by construction",
     'C14': "a round trip through serde's Serializer/Deserializer generics, visitor callbacks, FnMut id-mapping closures and concrete data formats; the (de)serialisation drivers (ser.rs/de.rs: macro-generated tuple impls over GenericRead/WriteStorage with `?` + From conversions) are outside the Verus subset and too large for Kani; no contract within reach states or decides it (the marker tables it relies on are decided under C15)",
     'C18': "subject is a proc-macro over syn/quote token streams; neither verifier handles those crates; correctness is over all input programs",
-    'C19': "needs unwinding semantics (catch_unwind, drop guards during unwind); Verus has no panics, Kani treats a panic as a failed check",
 }
